@@ -189,7 +189,7 @@ def run_adhist(tape, out):
         v = np.concatenate([np.atleast_2d(obs[s]) for s in spec['sums']], axis=1)
         rounds = tape.int('rounds', 1, 4)
         rs = np.random.RandomState(tape.int('data_seed', 0, 9999))
-        probe_n = 3
+        probe_n = tape.choice('probe_rows', [3, 1, 2, 5])     # batch size 1 included
         probe = {s: (rs.normal(size=(probe_n,) + ((w,) if w > 1 else ())) * (1 + j))
                  for j, (s, w) in enumerate(zip(spec['sums'], widths))}
         Up = np.column_stack([probe[s] for s in spec['sums']])
@@ -223,7 +223,10 @@ def run_adhist(tape, out):
             node.update_distance()
             scales.append(exp_scale)
             cols = np.asarray(node.generate(probe_n, with_values=probe))
-            cols = cols.reshape(probe_n, -1)
+            if cols.shape != (probe_n, r + 2):
+                out.violate('newest-distance', 'output-shape', round=r, rows=probe_n,
+                            shape=list(cols.shape), expected=[probe_n, r + 2])
+                return
             if cols.shape[1] != r + 2:
                 out.violate('newest-distance', 'column-count', round=r, columns=cols.shape[1],
                             expected=r + 2)
@@ -274,9 +277,11 @@ def run_adsim(tape, out):
     run_ = sr.SamplerRun(tape, out, spec, wl, sched, model=model, quiet=True)
     res = run_.sample(wl['n_samples'], **wl['objective'])
     if res is None:
-        if not out.inconclusive:
-            out.inconclusive = True
-            out.probes['raised'] += 1
+        if not out.inconclusive and run_.errors:
+            # a valid adaptive run (any batch size, 1 included) has to finish
+            e = run_.errors[-1]
+            out.violate('newest-distance', 'run-raises-' + type(e).__name__, method=meth,
+                        batch_size=bs, error=str(e)[:200])
         return
 
     def std_of(batches):
